@@ -97,5 +97,16 @@ if __name__ == "__main__":
         sys.exit(3)
     finally:
         sf.hbar = old
+    # a query must not rescale the state it is asked about (hbar = 2 hides such slips: the factor is 1)
+    try:
+        import native.c16_states as m16
+        m16.bad = lambda msg, fid="-": bad(msg)
+        m16.EVAL = EVAL
+        m16.check_queries_are_pure(12)
+    except Exception:
+        import traceback
+        traceback.print_exc()
+        print("bounded stand-in crashed")
+        sys.exit(3)
     emit_bounded("c15_hbar", EVAL[0], EVAL[0], [{"hbars": list(hbars), "circuits": ["X-Z-P", "CX-CZ", "Gaussian-prep", "homodyne-select", "Vgate"]}], len(V))
     sys.exit(1 if V else 0)
